@@ -70,6 +70,7 @@ class SxContract:
     max_paths = 20000
     boundaries = False
     smt_timeout_ms = 20000
+    budget_s = 420          # wall-clock budget of the path exploration; exceeding it is UNDECIDED, never a violation
     safety = True           # emit the safety obligation (denominators, log/sqrt domains, tokens)
 
     def patches(self):
@@ -99,7 +100,7 @@ def run_sx(contract, seed=0):
 
     obs = []
     try:
-        paths = sx.explore(ctx, fun)
+        paths = sx.explore(ctx, fun, budget_s=c.budget_s)
     except sx.PathLimit as e:
         return [Ob(f"{c.label}:paths", UNDECIDED, "path-limit", detail={"why": str(e)}, fn=c.fn)]
     t_explore = time.time() - t_start
